@@ -30,7 +30,7 @@ from .pegref import Node, PegRef
 from .pestlang import read_pest
 from .repo import Repo
 
-STRINGS = ['""', '"a"', '"a b"', '"\\n"', '"\\""', '"\\\\"', '"\\/"', '"\\b\\f\\r\\t"', '"\\u00e9"', '"\\uD834\\uDd1e"', '"[{,:}]"', '"é中"', '"true"', '"1"', '" "']
+STRINGS = ['""', '"a"', '"a b"', '"\\n"', '"\\""', '"\\\\"', '"\\/"', '"\\b\\f\\r\\t"', '"\\u00e9"', '"\\uD834\\uDd1e"', '"[{,:}]"', '"é中"', '"true"', '"1"', '" "', '"\x7f"', '"\x85\x9f"', '"\u2028\U0001f600"']
 NUMBERS = ["0", "-0", "7", "12", "-305", "0.5", "-3.25", "1e5", "1E5", "1e+5", "2E-3", "2.50e-03", "0.0", "0e0", "-0.0E+0"]
 WORDS = ["true", "false", "null"]
 SCALARS = [("string", s) for s in STRINGS] + [("number", n) for n in NUMBERS] + [("boolean", "true"), ("boolean", "false"), ("null", "null")]
@@ -52,16 +52,17 @@ def structures(tier: str) -> list[Any]:
             out.append(("array", vals))
             out.append(("object", [(keys[i], v) for i, v in enumerate(vals)]))
     # nesting: every composite inside every composite position, to depth three
-    small = [("array", []), ("object", []), ("array", [SCALARS[16]]), ("object", [('"k"', SCALARS[1])]), ("array", [SCALARS[30], SCALARS[3]]), ("object", [('"a"', SCALARS[18]), ('"b"', SCALARS[32])])]
+    nums, words = len(STRINGS), len(STRINGS) + len(NUMBERS)
+    small = [("array", []), ("object", []), ("array", [SCALARS[nums + 1]]), ("object", [('"k"', SCALARS[1])]), ("array", [SCALARS[words], SCALARS[3]]), ("object", [('"a"', SCALARS[nums + 3]), ('"b"', SCALARS[words + 2])])]
     for a in small:
         out.append(("array", [a]))
         out.append(("object", [('"k"', a)]))
         for b in small:
             out.append(("array", [a, b]))
-            out.append(("array", [SCALARS[15], a, b]))
+            out.append(("array", [SCALARS[nums], a, b]))
             out.append(("object", [('"x"', a), ('"y"', b)]))
             out.append(("array", [("array", [a]), ("object", [('"k"', b)])]))
-            out.append(("object", [('"p"', ("object", [('"q"', a)])), ('"r"', ("array", [b, SCALARS[31]]))]))
+            out.append(("object", [('"p"', ("object", [('"q"', a)])), ('"r"', ("array", [b, SCALARS[words + 1]]))]))
     return out
 
 
